@@ -204,8 +204,56 @@ def mem_index_small_scope(ctx):
     return res
 
 
+def both_backends_key_lookup(ctx):
+    """Bounded stand-in for get_existing_invocations on BOTH real orchestrators through the public calls (register + index + lookup):
+    all assignments of (a, b) in {x, y}^2 to 3 invocations of one task (so that key arguments with EQUAL values occur), all 9 key filters,
+    with and without a status filter; oracle: same task AND every filter pair equals the invocation's serialized argument."""
+    import itertools
+    from pyvc.prop import BoundedResult
+    from pynenc.arguments import Arguments
+    from pynenc.call import Call
+    from pynenc.invocation.dist_invocation import DistributedInvocation
+    from pynenc.invocation.status import InvocationStatus as S
+    from pynenc.workflow.workflow_identity import WorkflowIdentity
+    from . import verif_tasks as vt
+    from .realapp import real_app
+    res = BoundedResult("both_backends_key_lookup", "64 argument assignments x 9 key filters x {no status filter, [REGISTERED], [RUNNING]} on the in-memory and the SQLite "
+                        "orchestrator through register_new_invocations + index_arguments_for_concurrency_control + get_existing_invocations", exhaustive=True)
+    vals = ["x", "y"]
+    n = 0
+    for backend in ("mem", "sqlite"):
+        for assign in itertools.product(itertools.product(vals, repeat=2), repeat=3):
+            with real_app(backend) as app:
+                task = app.task(vt.key_task)
+                invs = []
+                for k, (av, bv) in enumerate(assign):
+                    iid = f"i{k}"
+                    inv = DistributedInvocation(Call(task, Arguments({"key": av, "other": bv})), iid, None,
+                                                WorkflowIdentity.new_workflow(invocation_id=iid, task_id=task.task_id), True)
+                    invs.append(inv)
+                app.state_backend.upsert_invocations(invs)
+                app.orchestrator.register_new_invocations(invs)
+                for inv in invs:
+                    app.orchestrator.index_arguments_for_concurrency_control(inv)
+                ser = {inv.invocation_id: dict(inv.call.serialized_arguments) for inv in invs}
+                sv = {v: app.client_data_store.serialize(v) for v in vals}
+                filters = [None] + [{"key": sv[v]} for v in vals] + [{"other": sv[v]} for v in vals] + [{"key": sv[v], "other": sv[w]} for v in vals for w in vals]
+                for f, sts in itertools.product(filters, (None, [S.REGISTERED], [S.RUNNING])):
+                    n += 1
+                    got = set(app.orchestrator.get_existing_invocations(task, f, sts))
+                    want = {i for i, kv in ser.items() if (not f or all(kv.get(k) == v for k, v in f.items())) and (sts is None or S.REGISTERED in sts)}
+                    if got != want and len(res.failures) < 6:
+                        res.failures.append({"what": f"{backend}: get_existing_invocations(key filter {f}, statuses {[s.name for s in sts] if sts else None}) with arguments "
+                                                     f"{ser} returned {sorted(got)}, expected {sorted(want)}",
+                                             "input": {"assign": [list(a) for a in assign], "filter": f}, "finding_key": f"{backend}:key-lookup"})
+    res.cases = n
+    res.distinct = n
+    res.samples = [{"assign": [["x", "x"], ["x", "y"], ["y", "y"]], "filter": {"key": "x", "other": "x"}}]
+    return res
+
+
 def bounded():
-    return [mem_index_small_scope]
+    return [mem_index_small_scope, both_backends_key_lookup]
 
 
 def replay_poll_raises(ctx, ob):
